@@ -52,6 +52,11 @@ exec /usr/bin/find "$@"
 ''',
     "hooklog": r'''#!/bin/bash
 echo "$*" >> "${VERIF_HOOK_LOG:-/dev/null}"
+if [ -n "${VERIF_PROBE_LOG:-}" ]; then
+    read -r up _ < /proc/uptime
+    lock="$(cat "${VERIF_ROOT}/.running" 2>/dev/null | tr -d '\n')"
+    echo "hook $1 $up exit=$2 lock=$lock" >> "$VERIF_PROBE_LOG"
+fi
 ''',
     # step command used by the orchestrator harnesses:
     #   probe NAME : logs start/end with a monotonic stamp and the content of .running,
@@ -108,6 +113,26 @@ class ShellEnv:
             self._write(os.path.join(self.bin, script),
                         "#!/bin/sh\nexec bash -O lastpipe %s \"$@\"\n" % os.path.join(build, script))
         ctx.trusted += [t for t in TRUSTED if t not in ctx.trusted]
+        self.wait = None
+
+    def build_wait(self):
+        """the real robsd-wait.c, built with -D__OpenBSD__ against the kqueue shim"""
+        if self.wait:
+            return self.wait
+        out = os.path.join(self.bin, "robsd-wait")
+        b = self.build
+        cmd = ["cc", "-O1", "-g", "-D__OpenBSD__", "-D" + core.GUARD, "-I" + os.path.join(core.VERIF, "harness", "kqshim"), "-I" + b,
+               "-o", out, os.path.join(b, "robsd-wait.c"), os.path.join(b, "libks", "map.c"), os.path.join(b, "libks", "vector.c"),
+               os.path.join(b, "libks", "arithmetic.c"), os.path.join(b, "compat-strtonum.c"), os.path.join(b, "compat-pledge.c"),
+               os.path.join(b, "compat-unveil.c")]
+        r = subprocess.run(cmd, capture_output=True, text=True)
+        if r.returncode != 0:
+            raise core.BuildError("robsd-wait (kqueue shim) failed to build:\n" + r.stderr[-2000:])
+        self.wait = out
+        t = "robsd-wait.c built with -D__OpenBSD__ against harness/kqshim/sys/event.h (kqueue/kevent EVFILT_PROC via pidfd_open+poll)"
+        if t not in self.ctx.trusted:
+            self.ctx.trusted.append(t)
+        return out
 
     @staticmethod
     def _write(path, text):
